@@ -57,6 +57,7 @@ type storedSpec struct {
 	swr, sie   string
 	dateSkew   int64 // Date = now + skew
 	noDate     bool
+	zeroDate   bool // Date: Mon, 01 Jan 0001 00:00:00 GMT (Go's zero time, a valid HTTP-date of a response two millennia old)
 	delayNs    int64
 	extra      Hdr
 	vary       string
@@ -122,6 +123,7 @@ func (g *G) genStored(focus string) storedSpec {
 		s.dateSkew = pick(g, int64(-3600), -10, -1, 1, 10, 3600)
 	}
 	s.noDate = g.chance(0.06)
+	s.zeroDate = !s.noDate && g.chance(0.03)
 	if g.chance(0.2) {
 		s.delayNs = pick(g, int64(1), sec, 2*sec, 3*sec+1)
 	}
@@ -139,7 +141,9 @@ func (g *G) genStored(focus string) storedSpec {
 func (s storedSpec) reply(atNs int64, body string) Reply {
 	h := Hdr{}
 	dateSec := bubbleEpoch + (atNs+s.delayNs)/sec + s.dateSkew
-	if !s.noDate {
+	if s.zeroDate {
+		h = append(h, [2]string{"Date", "Mon, 01 Jan 0001 00:00:00 GMT"})
+	} else if !s.noDate {
 		h = append(h, [2]string{"Date", httpDate(dateSec)})
 	}
 	var cc []string
